@@ -9,6 +9,7 @@ import Wheatley.Model.Parse
 import Wheatley.Lemmas.StartRow
 import Wheatley.Lemmas.RoundTrip
 import Wheatley.Lemmas.Gen
+import Wheatley.Lemmas.Cli
 namespace Wheatley.C18
 open Wheatley.Parse
 
@@ -687,5 +688,56 @@ example : (SpeedText.hoursMinutes 2 58 false).text = "2h58".toList ∧
   refine ⟨by decide, by decide, ?_⟩
   show 58 ≤ 59
   omega
+
+/-! ### The command line (`Model/Cli.lean`: `console_main`) -/
+
+/-- A start row that the syntax refuses ends the run with the start row's own message - before anything else
+is looked at. -/
+theorem cli_bad_start_row (c : Chars) (a : Cli.Args) (u : Option (List Char × List Char)) (s : List Char)
+    (e : String) (hs : a.startRow = some s) (hbad : startRow s = .own e) :
+    Cli.consoleArgs c a u = .exitStartRow :=
+  Cli.bad_start_row_exits c a u s e hs hbad
+
+/-- A peal speed that the syntax refuses ends the run with the peal speed's own message (the start row and the
+generator having been accepted). -/
+theorem cli_bad_peal_speed (c : Chars) (a : Cli.Args) (u : Option (List Char × List Char)) (src : Cli.Source)
+    (e : String) (hs : ∀ s, a.startRow = some s → ∃ n, startRow s = .ok n)
+    (hg : Cli.createRowGenerator c a u = .ok src) (hbad : pealSpeed c a.pealSpeed = .own e) :
+    Cli.consoleArgs c a u = .exitPealSpeed :=
+  Cli.bad_peal_speed_exits c a u src e hs hg hbad
+
+/-- A place notation that the syntax refuses: "Bad value for '--place-notation'". -/
+theorem cli_bad_place_notation (c : Chars) (a : Cli.Args) (u : Option (List Char × List Char)) (text : List Char)
+    (e : String) (hc : a.comp = none) (hm : a.method = none) (hp : a.pn = some text)
+    (hbad : placeNotation c text = .own e) : Cli.createRowGenerator c a u = .error .exitPN :=
+  Cli.bad_pn_exits c a u text e hc hm hp hbad
+
+/-- A call definition that the syntax refuses leaves `main` as the calls' own error. -/
+theorem cli_bad_call (c : Chars) (a : Cli.Args) (u : Option (List Char × List Char)) (text pn : List Char)
+    (stage : Nat) (e : String) (hc : a.comp = none) (hm : a.method = none) (hp : a.pn = some text)
+    (hpn : placeNotation c text = .ok (stage, pn)) (hb : callDef c a.bob = .own e) :
+    Cli.createRowGenerator c a u = .error (.raised e) :=
+  Cli.bad_call_raises c a u text pn stage e hc hm hp hpn hb
+
+/-- What is built is never built from a refused value: the peal speed handed to the rhythm is the value of
+the text given, and the generator is the one `create_row_generator` accepted. -/
+theorem cli_built_from_accepted_values (c : Chars) (a : Cli.Args) (u : Option (List Char × List Char))
+    (cfg : Cli.Cfg) (h : Cli.consoleArgs c a u = .built cfg) :
+    pealSpeed c a.pealSpeed = .ok cfg.pealSpeed ∧ Cli.createRowGenerator c a u = .ok cfg.source :=
+  ⟨(Cli.consoleArgs_built c a u cfg h).2.2.2.2.2.2.2.2.2.1, (Cli.consoleArgs_built c a u cfg h).2.2.2.2.2.2.2.2.2.2⟩
+
+/-- Non-vacuity: `-p 6:x16x16x16,12 -H -S 3h` is built, with both handbell switches and 180 minutes; `-S 3x`
+is refused with the peal speed's message; no generator option is a usage error. -/
+example :
+    (match Cli.consoleMain asciiChars [.pn "6:x16x16x16,12".toList, .handbell, .pealSpeed "3h".toList] none with
+     | .built cfg => cfg.udi && cfg.sar && cfg.pealSpeed == 180 && cfg.useWait
+     | _ => false) = true ∧
+    (match Cli.consoleMain asciiChars [.pealSpeed "3x".toList, .pn "6:x16x16x16,12".toList] none with
+     | .exitPealSpeed => true
+     | _ => false) = true ∧
+    (match Cli.consoleMain asciiChars [.udi] none with
+     | .usage => true
+     | _ => false) = true := by
+  refine ⟨?_, ?_, ?_⟩ <;> decide +kernel
 
 end Wheatley.C18
